@@ -337,6 +337,28 @@ def rule_f(R, ctx, rid="C16.f"):
     R.floor(rid, "range pieces appended to range lists", n, 9)
 
 
+def rule_h(R, ctx, rid="C16.h"):
+    Y = ctx.yrs
+    from ylib import mirror
+    fn = Y.fn("yrs::ids::IdRanges::merge")
+    R.rule(rid, "R-SIB mirror (contradiction rule): IdRanges::merge — the union of two sorted range lists behind IdSet/IdMap merge, "
+                "the delete set of a transaction and of merged updates — treats its two operands alike: every two-way branch inside "
+                "the loop whose condition is the role-exchanged twin of another branch's condition (a exhausted / b exhausted, a ends "
+                "before b starts / b ends before a starts, a's prefix / b's prefix, a ends first / b ends first) guards a region that "
+                "is the twin's region with a and b exchanged: same calls, same stores, operands that are value mirrors under ONE "
+                "bijection of the loop variables (name-free, commutative operands in either order). If the twins differ one of them "
+                "is wrong: the union then depends on which operand is self (a range dropped or kept twice on one side only)")
+    roots = sorted({mirror._root(fn, cs.args[0]) for cs in fn.calls()
+                    if re.search(r"SmallVec(<.*>)?::len$|Index(<.*>)?>?::index$", cs.name) and fn.cfg().in_loop(cs.bb)})
+    if len(roots) != 2:
+        raise AnchorLost("IdRanges::merge: expected two operand lists indexed inside the loop, found %d" % len(roots))
+    pairs, problems = mirror.mirrored_branches(fn, [(roots[0], roots[1])])
+    R.floor(rid, "twin branches in IdRanges::merge (a branch whose condition has lost its role-exchanged twin counts as missing)", len(pairs), 7)
+    R.ob(rid, fn, "twins", not problems,
+         "%d twin branches are mirror images (lines %s)" % (len(pairs), ", ".join("%s/%s" % (a, b) for a, b, _ in pairs)) if not problems else
+         "; ".join(problems))
+
+
 def check(ctx, R):
     R.run("C16.a", rule_a, ctx)
     R.run("C16.b", rule_b, ctx)
@@ -344,6 +366,7 @@ def check(ctx, R):
     R.run("C16.d", rule_d, ctx)
     R.run("C16.e", rule_e, ctx)
     R.run("C16.f", rule_f, ctx)
+    R.run("C16.h", rule_h, ctx)
     from . import scans
     R.run("C16.g", lambda R, c: scans.loop_scans(R, c, "C16.g", ["yrs::ids::IdRanges::subset_of"]), ctx)
     from . import preds
